@@ -690,7 +690,7 @@ class CacheSeqEngine(CacheEngineBase):
     chunks = {"quick": 20, "thorough": 250}
     rule = ("each case is a Chooser-generated history of 2..8 steps over one scratch project: DEFINE (a fresh simulated process, or "
             "one that is still alive, executes defs.py / defs_x.py as it is on disk; bytecode caching on or off per process), EDIT "
-            "(defs.py rewritten to 1-3 same-named declarations out of a family of 14 confusable variants, optionally the colliding "
+            "(defs.py rewritten to 1-3 same-named declarations out of a family of 17 confusable variants, optionally the colliding "
             "x_Foo), TICK (storage clock stays / +1..3 s / steps back), JANITOR (delete .py only, .pyc only, the whole __pkts__, touch, "
             "restore an older copy with its old mtime); every mutating file call additionally draws a clock tie / step. distinct = "
             "digest of the abstract step list; non-trivial = at least two DEFINEs of different declaration lists and a cache file "
@@ -927,7 +927,7 @@ class CacheConcEngine(CacheEngineBase):
     chunks = {"quick": 20, "thorough": 250}
     rule = ("each case is one simulated run: a drawn prior cache state (empty, or left by a fault-free process that defined another "
             "declaration list, with or without bytecode), then 2-3 simulated processes executing defs.py (1-3 same-named "
-            "declarations out of 14 confusable variants) concurrently - every file-system call is a yield point where the Chooser "
+            "declarations out of 17 confusable variants) concurrently - every file-system call is a yield point where the Chooser "
             "picks who runs next, whether the clock ties/steps and whether the process dies there (<=2 deaths, writes cut at "
             "chosen byte offsets so that death leaves torn files) - then 1-2 later fault-free processes, possibly after an edit. "
             "distinct = digest of (declaration lists, process set, kill points); non-trivial = at least two processes really "
